@@ -199,10 +199,10 @@ Qed.
 
 Lemma leaf_pairs_refuted : exists t p,
   validate t = true /\ Forall (fun lv => NoDup (nodes lv)) t /\
-  In (1, 1) (leaf_pairs t p) /\ ~ NoDup (leaf_pairs t p).
+  (exists a, In (a, a) (leaf_pairs t p)) /\ ~ NoDup (leaf_pairs t p).
 Proof.
   exists f3_tree, (Some (0%nat, 0)). split; [vm_compute; reflexivity|]. split; [apply wf_small; reflexivity|].
-  split; [vm_compute; tauto|]. vm_compute. intros H. rewrite !NoDup_cons_iff in H.
+  split; [exists 1; vm_compute; tauto|]. vm_compute. intros H. rewrite !NoDup_cons_iff in H.
   destruct H as (_ & Hn & _). apply Hn. left. reflexivity.
 Qed.
 
@@ -566,3 +566,44 @@ Proof.
     split; [intros j x k; cbn [up_levels]; rewrite A', A1; reflexivity | tauto].
 Qed.
 
+
+(* ------------------------------------------------------------------ leaf lists = leaves by ancestor *)
+(* the leaf list of node x of level k holds exactly the leaves whose ancestor at level k is x *)
+Theorem leaves_of_ancestor t : validate t = true -> wf t ->
+  forall k x l, (k < length t)%nat ->
+    (In l (leaves_of t k x) <-> ancestor_at t (length t - 1) l k = Some x).
+Proof.
+  intros V W.
+  assert (G : forall d k x l, (k + d = length t - 1)%nat -> (k < length t)%nat ->
+            (In l (leaves_of t k x) <-> ancestor_at t (length t - 1) l k = Some x)).
+  { induction d as [|d IH]; intros k x l Hd Hk.
+    - replace k with (length t - 1)%nat by lia. rewrite (leaves_of_leaf t V), ancestor_at_self. cbn [In].
+      split; [intros [->|[]]; reflexivity | intros E; inversion E; left; reflexivity].
+    - assert (Hk' : (S k < length t)%nat) by lia.
+      rewrite (ancestor_at_chain t (length t - 1) l k) by lia. split.
+      + intros H. apply (Permutation_in _ (leaves_of_children t k x Hk')) in H.
+        apply in_flat_map in H. destruct H as (c & Hc & Hl).
+        apply (IH (S k) c l) in Hl; [|lia|lia]. rewrite Hl. apply (children_parent_of t V k x c Hk' Hc).
+      + intros H. destruct (ancestor_at t (length t - 1) l (S k)) as [c|] eqn:Ec; [|discriminate].
+        apply (Permutation_in _ (Permutation_sym (leaves_of_children t k x Hk'))).
+        apply in_flat_map. exists c. split; [apply (parent_of_children t k x c W H)|].
+        apply (IH (S k) c l); [lia | lia | exact Ec]. }
+  intros k x l Hk. apply (G (length t - 1 - k)%nat); lia.
+Qed.
+
+(* ------------------------------------------------------------------ deciding the side conditions on concrete trees *)
+Fixpoint inner_nodup_b (t : tree) : bool :=
+  match t with
+  | [] => true
+  | lv :: rest => match rest with
+                  | [] => true
+                  | _ :: _ => forallb (fun nc => znodup_b (snd nc)) lv && inner_nodup_b rest
+                  end
+  end.
+Lemma inner_nodup_small t : inner_nodup_b t = true -> inner_nodup t.
+Proof.
+  induction t as [|lv rest IH]; [intros _; exact Logic.I|]. cbn [inner_nodup_b inner_nodup].
+  destruct rest as [|lv2 rest]; [intros _; exact Logic.I|]. intros H. apply andb_true_iff in H. destruct H as [H1 H2].
+  split; [|apply IH; exact H2]. intros p cs Hin. apply znodup_b_spec.
+  apply (proj1 (forallb_forall _ _) H1 (p, cs) Hin).
+Qed.
